@@ -28,6 +28,19 @@ LEVEL = "proof"
 THEOREMS = ["C13_prune_sound", "C13_scan_equal", "C13_bounds_true"]
 REQ = ["DS.Model.Value", "DS.Gen.GenPrune", "DS.Model.Prune"]
 
+MANIFEST_ENTRY = {
+    "level_text": "C13_prune_sound / C13_scan_equal / C13_bounds_true proved in Coq for every file content, schema, filter "
+                  "conjunction and literal (unbounded), over the pruning decision regenerated from filters._file_may_match on "
+                  "every run; hand-written model pieces (Python comparison semantics, bounds computation, pyarrow selection) "
+                  "are tied to the code by differential execution on exhaustive small domains; implementation-only oracles "
+                  "(real bounds -> real pruning -> real pyarrow; pruned vs unpruned scans) search for a failing input",
+    "level_note": "trusted: Coq kernel; translator/gen_prune.py; assumption PA-exact (pyarrow evaluates a filter exactly or "
+                  "raises; lossy is_in casts are an unconstrained oracle X); columns are kind-homogeneous; the harness runs "
+                  "the code faithfully",
+    "technique": "Coq proof over translator-regenerated pruning kernel + differential correspondence",
+    "design_ref": "DESIGN.md section 5 C13",
+}
+
 OPS = ["EQ", "NE", "LT", "LE", "GT", "GE", "IN", "NOT_IN", "IS_NULL", "IS_NOT_NULL"]
 SCALAR_OPS = ["EQ", "NE", "LT", "LE", "GT", "GE"]
 
